@@ -374,7 +374,7 @@ MUTANTS += [
       edits=[('src/bls12_381/decomposition.cpp', '} while (BigInt<256>::compare(y, Fr::p_value) != -1);', '} while (BigInt<256>::compare(y, Fr::r_value) != -1);')]),
  dict(name='c07-x-cubed-typo', prop='C07', expect='powers|recombination',
       edits=[('src/bls12_381/decomposition.cpp', '0x00000000, 0x00010000, 0x76030000,', '0x00000000, 0x00010000, 0x76030001,')]),
- dict(name='c07-bit-scan-from-62', prop='C07', expect='gtexp|bitrange',
+ dict(name='c07-bit-scan-from-62', prop='C07', expect='R-POLY/exp',
       edits=[('src/bls12_381/fq12_cyclotomic.cpp', 'for (int i = bls_x_highest_set_bit; i != -1; i--) {', 'for (int i = bls_x_highest_set_bit - 1; i != -1; i--) {')]),
  dict(name='c10-fq-random-compare-gt', prop='C10', expect='reject|Fq::random',
       edits=[('src/bls12_381/fq.cpp', '} while (BigInt<fq_bits>::compare(this->val, fq_modulus) >= 0);', '} while (BigInt<fq_bits>::compare(this->val, fq_modulus) > 0);')]),
@@ -1326,4 +1326,27 @@ MUTANTS += [
       edits=[('src/bls12_381/decomposition.cpp', 't1.multiply(c[1], bls_x);', 't1.multiply(c[0], bls_x);')]),
  dict(name='benign-r2-C10-mask-ff', prop='C10', expect='VIOLATION property=C10', patch='selftest/fixes/benign-r2-C10.patch',
       edits=[('src/bls12_381/fr.cpp', 'top_byte &= 0x7F;', 'top_byte &= 0xFF;')]),
+]
+
+MUTANTS += [
+ dict(name='benign-r2-C13-extern-helper', prop='C13', benign=True, expect='', patch='selftest/fixes/benign-r2-C13-extern.patch'),
+ dict(name='benign-r2-C13-extern-helper-on-C14', prop='C14', benign=True, expect='', patch='selftest/fixes/benign-r2-C13-extern.patch'),
+ dict(name='benign-r2-C13-extern-helper-on-C20', prop='C20', benign=True, expect='', patch='selftest/fixes/benign-r2-C13-extern.patch'),
+ dict(name='benign-r2-C13-extern-helper-wrong-id', prop='C13', expect='R-SCHEME', patch='selftest/fixes/benign-r2-C13-extern.patch',
+      edits=[('src/wkdibe/api.cpp', 'temp.multiply(slot.hexp, attr.id);', 'temp.multiply(slot.hexp, attrs.attrs[0].id);')]),
+]
+
+# ---- round 12 seeds
+MUTANTS += [
+ dict(name='seed-C01-sparse-multiply-lazy-add', prop='C01', patch='seeded/C01-sparse-multiply-lazy-add-lost-carry/patch.diff', expect='VIOLATION property=C01'),
+ dict(name='seed-C01-sparse-multiply-lazy-add-on-C04', prop='C04', patch='seeded/C01-sparse-multiply-lazy-add-lost-carry/patch.diff', expect='VIOLATION property=C04'),
+ dict(name='seed-C04-fq12-multiply-scratch-in-output', prop='C04', patch='seeded/C04-fq12-multiply-scratch-in-output/patch.diff', expect='VIOLATION property=C04'),
+ dict(name='seed-C05-projective-equal-fastpath', prop='C05', patch='seeded/C05-projective-equal-normalized-fastpath/patch.diff', expect='R-GUARD/G8'),
+ dict(name='seed-C07-gt-exp-pointer-table', prop='C07', patch='seeded/C07-gt-exp-base-used-through-pointer-table/patch.diff', expect='R-POLY/exp'),
+ dict(name='seed-C08-swap-identity-pairs', prop='C08', patch='seeded/C08-miller-loop-swap-identity-pairs-to-tail/patch.diff', expect='VIOLATION property=C08'),
+ dict(name='seed-C10-generator-flattened', prop='C10', patch='seeded/C10-generator-sampler-flattened-no-identity-retry/patch.diff', expect='reject|nonidentity'),
+ dict(name='seed-C12-exit-test-after-consume', prop='C12', patch='seeded/C12-nondelegable-qualifykey-exit-test-after-consume/patch.diff', expect='VIOLATION property=C12'),
+ dict(name='seed-C16-keygen-short-ladder', prop='C16', patch='seeded/C16-keygen-short-ladder-after-one-subtraction/patch.diff', expect='roles|keygen'),
+ dict(name='seed-C19-set-length-sibling', prop='C19', patch='seeded/C19-secretkey-set-length-through-sibling-wrapper/patch.diff', expect='VIOLATION property=C19'),
+ dict(name='seed-C20-verify-generator-cache', prop='C20', patch='seeded/C20-verify-generator-cache-by-params-address/patch.diff', expect='VIOLATION property=C20'),
 ]
